@@ -236,20 +236,29 @@ def run_corr(prop, binary, tier, seed, timeout):
         rc, out = coq_run_file(os.path.join("gen", sh["name"] + ".v"), timeout)
         return sh, rc, out
 
-    mism, broken = [], []
+    mism, broken, ambiguous = [], [], []
     with ThreadPoolExecutor(max_workers=NPROC) as ex:
         for sh, rc, out in ex.map(one, shards):
             if rc != 0:
                 broken.append(f"{sh['name']}: coqc failed ({rc}): {out[-300:]}")
                 continue
+            m2 = re.search(r"=\s*\(\s*\[(.*?)\]\s*,\s*\[(.*?)\]\s*\)\s*:\s*list Z \* list Z", out, re.S)
             m = re.search(r"=\s*\[(.*?)\]\s*:\s*list Z", out, re.S)
-            if not m:
+            if m2:
+                mm, aa = m2.group(1), m2.group(2)
+            elif m:
+                mm, aa = m.group(1), ""
+            else:
                 broken.append(f"{sh['name']}: unparsable output {out[-200:]}")
                 continue
-            for tok in re.findall(r"-?\d+", m.group(1)):
+            for tok in re.findall(r"-?\d+", mm):
                 k = sh["first"] + int(tok)
                 mism.append({"index": k, "case": descs[k] if k < len(descs) else "?"})
+            for tok in re.findall(r"-?\d+", aa):
+                k = sh["first"] + int(tok)
+                ambiguous.append({"index": k, "case": descs[k] if k < len(descs) else "?"})
     meta["mismatches"] = mism
+    meta["ambiguous"] = ambiguous
     meta["broken_shards"] = broken
     for f in glob.glob(os.path.join(GEN, f"cases_{prop}_*.v")):
         os.remove(f)
@@ -470,6 +479,7 @@ def write_evidence(prop, tier, seed, cfg, t0, axioms, corr, searches, theorems, 
             "samples": samples[:12] or ["(no samples: checks did not run)"],
             "correspondence": {k: corr[k] for k in ("cases", "distinct", "kinds")} if corr else None,
             "correspondence_mismatches": mism,
+            "correspondence_ambiguous": len(corr.get("ambiguous", [])) if corr else 0,
             "search_distribution": dist,
             "exhaustive": exhaustive,
             "broken": problems[:20],
